@@ -13,7 +13,7 @@ LEVEL = ("Static analysis over rustc MIR facts of /repo's current tree: every li
 CLAIMED = {
     "C08": dict(
         technique="MIR path-sensitive control/value-flow: reply() failure-branch exits, sub-message id/reply_on census, Result-use discipline, tmp-record typestate over the execute->reply chain graph",
-        note="Decided: R08.1 no Ok exit on the SubMsgResult::Err branch of reply(); R08.2 every constructed (id, reply_on) has its reply arms, other contracts use ReplyOn::Never and have no reply(); R08.3 no dropped/defaulted Result in engine code; R08.4 tmp-swap/sent-funds/tmp-liquidator stored-minus-removed is empty at the end of every chain. Not decided: that an Err/abort reverts other contracts' storage (platform semantics, trusted).",
+        note="Decided: R08.1 for every reply id the engine constructs (and any other id) the applicable failure branch of reply() cannot return Ok; R08.2 every constructed (id, reply_on) has its reply arms, other contracts use ReplyOn::Never and have no reply(); R08.3 no dropped/defaulted Result in engine code; R08.4 tmp-swap/sent-funds/tmp-liquidator stored-minus-removed is empty at the end of every chain. Not decided: that an Err/abort reverts other contracts' storage (platform semantics, trusted).",
         design="4/C08"),
     "C09": dict(
         technique="MIR path-sensitive guard analysis: role fact about info.sender on every success path of each privileged execute arm (DNF over callee success paths), variant classification, role-slot writer census",
@@ -21,7 +21,7 @@ CLAIMED = {
         design="4/C09"),
     "C16": dict(
         technique="MIR path-sensitive guard analysis and stored-value flow: restriction guard shape on Open/Close, marker/stamp writes in the liquidation and trade replies, marker preservation by every vAMM-map writer",
-        note="Decided: R16.1 guard on every success path of OpenPosition/ClosePosition for (msg.vamm, info.sender), marker consulted nowhere else; R16.2 rejection is the conjunction of marker==height and stamp==height; R16.3 both liquidation replies set the marker of tmp_swap.vamm to env.block.height; R16.4 every position store in a reply stamps env.block.height; R16.5 other vAMM-map writers preserve the marker. Not decided: nothing numeric; a fully liquidated (removed) position carries no stamp by design of the storage layout.",
+        note="Decided: R16.1 guard on every success path of OpenPosition/ClosePosition for (msg.vamm, info.sender), marker consulted nowhere else; R16.2 rejection is the conjunction of marker==height and stamp==height; R16.3 both liquidation replies set the marker of tmp_swap.vamm to env.block.height; R16.4 every position store in a reply stamps env.block.height; R16.5 other vAMM-map writers preserve the marker; R16.6 a reply that ends a position keeps the pair's block stamp (known findings F16 x2: close and full-liquidation replies remove the record together with the stamp, so the closing / liquidated trader can act again in the liquidation block). Not decided: nothing numeric.",
         design="4/C16"),
     "C14": dict(
         technique="MIR path-sensitive guard analysis across contracts: pause / open / registered guards as facts on every success path of the tabled arms, cross-contract query parsing, registry guards, shutdown filter",
@@ -37,7 +37,7 @@ CLAIMED = {
         design="4/C03"),
     "C17": dict(
         technique="MIR sibling agreement between query and execute arms (same pricing callee, same operand origins), reserve-writer argument flow, limit-comparison table on success/reject paths, cross-contract limit forwarding",
-        note="Decided: R17.1 InputAmount/OutputAmount and SwapInput/SwapOutput call the same pricing function on (msg.direction, msg amount, State reserves) and use the result unchanged; R17.2 reserve writer gets requested amount unchanged, priced amount on the other side, direction unchanged/flipped; R17.3 limit table (receive: >= limit, owe: <= limit, zero: untested, rejection only on strict violation); R17.5 engine forwards the caller's limit unchanged on increase, reduce, whole close, full liquidation, and the limit-dropping reversal branch is only reachable with position.size != 0 established (found F13, fixed). Not decided: the pricing arithmetic (C01).",
+        note="Decided: R17.1 InputAmount/OutputAmount and SwapInput/SwapOutput call the same pricing function on (msg.direction, msg amount, State reserves) and use the result unchanged; R17.2 reserve writer gets requested amount unchanged, priced amount on the other side, direction unchanged/flipped; R17.3 limit table (receive: >= limit, owe: <= limit, zero: untested, rejection only on strict violation; a zero-amount swap cannot satisfy a non-zero receive-side limit - found F20, fixed); R17.5 engine forwards the caller's limit unchanged on increase, reduce, whole close, full liquidation, and the limit-dropping reversal branch is only reachable with position.size != 0 established (found F13, fixed). Not decided: the pricing arithmetic (C01).",
         design="4/C17"),
     "C20": dict(
         technique="MIR stored-value flow + guard facts: each stored Config field that can differ from the loaded one is matched with a validation fact about that same operand; cap comparisons matched with the value actually written",
@@ -49,7 +49,7 @@ CLAIMED = {
         design="4/C15"),
     "C11": dict(
         technique="MIR expression-tree normalisation and pattern matching (formula identity) for the funding formulas, guard facts for the schedule, stored-value flow for the charge/checkpoint pairing",
-        note="Decided: R11.1 SettleFunding success paths establish now >= next_funding_time; R11.2 premium fraction tree (twap_vamm - twap_oracle)*period/86400 behind the emitted attribute and the funding rate, next funding time max(aligned, now+buffer), buffer = period/2 only at instantiate; R11.3 one append per reply path, cumulative = last + new, payment = tps*fraction/decimals, sign table (negative -> insurance Withdraw(|p|), positive -> transfer to insurance fund, zero -> nothing); R11.4 margin and checkpoint come from the same remain-margin result at every position store or are both untouched/reset; R11.5 every reply that ends a position (close, liquidation, reversal) settles the outstanding funding payment into the margin it pays out or carries over (found F11, fixed). Not decided: TWAP values (C18), numeric exactness beyond formula identity, the cap min(balance, p) arithmetic.",
+        note="Decided: R11.1 SettleFunding success paths establish now >= next_funding_time; R11.2 premium fraction tree (twap_vamm - twap_oracle)*period/86400 behind the emitted attribute and the funding rate, next funding time max(aligned, now+buffer), buffer = period/2 only at instantiate; R11.3 one append per reply path, cumulative = last + new, payment = tps*fraction/decimals, sign table (negative -> insurance Withdraw(|p|), positive -> transfer to insurance fund, zero -> nothing); R11.4 margin and checkpoint come from the same remain-margin result at every position store or are both untouched/reset; R11.5 every reply that ends a position (close, liquidation, reversal) settles the outstanding funding payment into the margin it pays out or carries over (found F11, fixed); R11.6 every token-moving message of the funding reply has a provably non-zero amount (found F18, fixed); R11.7 where a remain-margin result's clamped margin is stored with the advanced checkpoint its bad_debt is consumed on the path (known findings F17 x2: update_position_reply drops it); R11.8 the remain-margin function's own trees (funding formula, latest fraction queried on every path, clamped margin / bad debt). Not decided: TWAP values (C18), numeric exactness beyond formula identity, the cap min(balance, p) arithmetic.",
         design="4/C11"),
     "C04": dict(
         technique="MIR guard facts, expression-tree pattern matching of the payout and margin-delta formulas, sibling agreement close/liquidation, &mut State effect tracking for the prepaid-bad-debt accounting",
@@ -69,7 +69,7 @@ CLAIMED = {
         design="4/C06"),
     "C13": dict(
         technique="MIR sibling-arm agreement on every branch over the collateral kind: transfer constructors compared by (receiver, amount), native required-funds increments compared as a multiset with the amounts the cw20 arm pulls from the trader on the path with the same other conditions",
-        note="Decided (the structural clause the 2-run relation rests on): R13.1 native and cw20 arms of every transfer constructor build the same (receiver, amount); R13.1b in the Open replies the native arm raises SentFunds.required by exactly what the cw20 arm pulls from the trader; R13.2 native terminal paths pass the exact-match check, the check accepts equality only, SentFunds is created only by OpenPosition with required=0; R13.3 every cw20 pull a chain step can emit is from the caller of the transaction (the premise only lets a native call mirror pulls from the caller); R13.4 arms whose chain pulls from the caller never condition success on the attached coins beyond the collateral-coin lookup. Not decided: equality of the two runs' outcomes as such; allowance/balance failure modes.",
+        note="Decided (the structural clause the 2-run relation rests on): R13.1 native and cw20 arms of every transfer constructor build the same (receiver, amount); R13.1b in the Open replies the native arm raises SentFunds.required by exactly what the cw20 arm pulls from the trader; R13.2 native terminal paths pass the exact-match check, the check accepts equality only, SentFunds is created only by OpenPosition with required=0; R13.3 every cw20 pull a chain step can emit is from the caller of the transaction (the premise only lets a native call mirror pulls from the caller); R13.4 arms whose chain pulls from the caller never condition success on the attached coins beyond the collateral-coin lookup; R13.5 no reply of a chain whose attached native coins are untracked sizes an insurance top-up from the engine balance (known finding F10: whole-close reply). Not decided: equality of the two runs' outcomes as such; allowance/balance failure modes.",
         design="4/C13"),
     "C19": dict(
         technique="finite-domain abstract interpretation of the extracted MIR paths of every Integer operation over the complete sign x zero-ness x magnitude-order case space, compared with the mathematical table",
@@ -89,7 +89,7 @@ CLAIMED = {
         design="4/C07"),
     "C18": dict(
         technique="MIR writer census and pairing for reserve snapshots, stored-value flow for the price feed, and linear (telescoping) check of the TWAP weights on the bounded-unrolled prefix of the two averaging loops",
-        note="Decided: R18.1 snapshots are written only by instantiate and the snapshot writer, which follows every reserve write with the stored reserves; R18.2 overwrite iff same block, else append stamped (time, height); R18.3 price submissions stored unmodified, GetPrice returns the last stored element; R18.4 on every TWAP path that ends within one unrolled iteration the result is one observed price or sum(price*w)/D with weights telescoping to D, and the loop has no iterator-driven exit. Not decided: the convexity claim for histories longer than the unrolled prefix (loop-carried weights), which is arithmetic.",
+        note="Decided: R18.1 snapshots are written only by instantiate and the snapshot writer, which follows every reserve write with the stored reserves; R18.2 overwrite iff same block, else append stamped (time, height); R18.3 price submissions stored unmodified, GetPrice returns the last stored element, GetPreviousPrice stays strictly below the latest round id (found F19, fixed); R18.4 on every TWAP path that ends within one unrolled iteration the result is one observed price or sum(price*w)/D with weights telescoping to D, and the loop has no iterator-driven exit. Not decided: the convexity claim for histories longer than the unrolled prefix (loop-carried weights), which is arithmetic.",
         design="4/C18"),
 }
 
